@@ -29,7 +29,7 @@ RULE = (
     'Non-trivial = handles of at least two processes interleave inside one step, or a nested execute / launched child '
     'occurs; distinct = distinct event-log digest.'
 )
-BUDGET = {'quick': (14000, 55), 'thorough': (1_500_000, 600)}
+BUDGET = {'quick': (28000, 55), 'thorough': (1_500_000, 600)}
 COMPONENTS = {
     'real': ['plumpy.processes.Process (_process_scope, _run_task, call_soon, launch, execute, PROCESS_STACK contextvar)',
              'plumpy.events.ProcessCallback', 'contextvars (per-handle contexts of CPython asyncio)',
